@@ -24,3 +24,6 @@ func verifAtomicBegin() {}
 func verifAtomicEnd(ev string, a, b, c uint64) {}
 
 func verifTrace(ev string, a, b, c uint64) {}
+
+// verifTraceSelfCopy records a chunk copied from the self seed. No-op unless built with 'verif'.
+func verifTraceSelfCopy(c IndexChunk, segment SeedSegment) {}
